@@ -433,6 +433,9 @@ def convert_resize_to_upscale_and_average_pool(op):
     op.ifm_resampling_mode = resampling_mode.NEAREST
 
     upscaled_shape = np.array(op.ifm_shapes[0].get_hw_as_list())
+    # The operator's own 4D shapes; the tensors may have been given other shapes by bypassed reshapes
+    orig_ifm_shape = op.ifm_shapes[0]
+    orig_ofm_shape = op.ofm_shapes[0]
 
     # Get upscale factor that was calculated in the supported operators check
     upscale_factor = op.attrs["upscale_factor"]
@@ -459,6 +462,8 @@ def convert_resize_to_upscale_and_average_pool(op):
         pre_op = scaled_op
 
         scaled_op.set_ifm_ofm_shapes()
+        if count == 0:
+            scaled_op.ifm_shapes[0] = orig_ifm_shape
         DebugDatabase.add_optimised(op, scaled_op)
 
     # Last x2 upscaling
@@ -490,6 +495,9 @@ def convert_resize_to_upscale_and_average_pool(op):
     scaled_op.outputs = outputs
     scaled_op.outputs[0].ops = [scaled_op]
     scaled_op.set_ifm_ofm_shapes()
+    scaled_op.ofm_shapes[0] = orig_ofm_shape
+    if n <= 1:
+        scaled_op.ifm_shapes[0] = orig_ifm_shape
     DebugDatabase.add_optimised(op, scaled_op)
 
     return op
